@@ -23,6 +23,12 @@ C13_OPS = ['prefix_increment', 'prefix_decrement', 'postfix_increment', 'postfix
            'less_equal', 'greater_than', 'greater_equal', 'equality', 'inequality']
 
 PROPS = {
+    'C07': {
+        'title': 'Compilation is deterministic',
+        'v_units': ['bindings'],
+        'k_groups': [],
+        'design_ref': 'DESIGN.md §3 C07',
+    },
     'C08': {
         'title': 'Compilation is total: every input yields a result or a rendered diagnostic',
         # roll-up: panic / overflow / bounds freedom of every function under contract (tag C08 in each unit)
